@@ -6,6 +6,9 @@ import RtenVerif.Lemmas.OnnxRefSlice
 import RtenVerif.Lemmas.OnnxRefWhere
 import RtenVerif.Lemmas.OnnxRefArg
 import RtenVerif.Lemmas.OnnxRefTranspose
+import RtenVerif.Lemmas.OnnxRefGather
+import RtenVerif.Lemmas.OnnxRefReshape
+import RtenVerif.Lemmas.OnnxRefSqueeze
 /-!
 # C15 — Operators conform to ONNX reference semantics (partial)
 
@@ -169,5 +172,53 @@ theorem c15_where_const (v : Int) (x y : Tensor) :
 
 example : (match whereOp (scalar 1) ⟨[2], [5, 6]⟩ ⟨[2, 1], [8, 9]⟩ with | .ok t => (t.shape, t.data) | .error _ => ([], []))
     = ([2, 2], [5, 6, 5, 6]) := by decide
+
+/-! ## Gather -/
+
+/-- L17. Gather (axis 0) with a permutation `p` of the rows and then with its inverse `q`
+(`p[q[i]] = i`) is the identity. -/
+theorem c15_gather_perm_inverse (x : Tensor) (d : Nat) (rest p q : List Nat) (hs : x.shape = d :: rest)
+    (hwf : x.data.length = prod x.shape)
+    (hp : ∀ a ∈ p, a < d) (hq : ∀ a ∈ q, a < p.length) (hql : q.length = d)
+    (hinv : q.map (getN p) = List.range d) :
+    (gather x ⟨[p.length], p.map Int.ofNat⟩ 0).bind (fun y => gather y ⟨[q.length], q.map Int.ofNat⟩ 0)
+      = .ok x := gather_perm_inverse x d rest p q hs hwf hp hq hql hinv
+
+example : (∀ a ∈ ([2, 0, 1] : List Nat), a < 3) ∧ (∀ a ∈ ([1, 2, 0] : List Nat), a < [2, 0, 1].length) ∧
+    ([1, 2, 0] : List Nat).map (getN [2, 0, 1]) = List.range 3 := by decide
+example : (match gather ⟨[3, 2], [1, 2, 3, 4, 5, 6]⟩ ⟨[3], [2, 0, 1]⟩ 0 with | .ok t => t.data | .error _ => [])
+    = [5, 6, 1, 2, 3, 4] := by decide
+
+/-! ## Reshape / Squeeze / Unsqueeze -/
+
+/-- L18. The target shape `Reshape` computes (with `0` = copy the input dimension, one `-1` = infer,
+`allowzero`) always has exactly the element count of the input shape. -/
+theorem c15_reshape_count (inShape : List Nat) (spec : List Int) (allowzero : Bool) (out : List Nat)
+    (h : reshapeDims inShape spec allowzero = .ok out) : prod out = prod inShape :=
+  reshapeDims_prod inShape spec allowzero out h
+
+/-- L19. `Reshape` preserves the row-major element sequence (and so well-formedness). -/
+theorem c15_reshape_data (x y : Tensor) (spec : List Int) (allowzero : Bool)
+    (h : reshape x spec allowzero = .ok y) : y.data = x.data ∧ prod y.shape = prod x.shape :=
+  reshape_spec x y spec allowzero h
+
+example : (match reshapeDims [2, 3, 4] [0, -1] false with | .ok s => s | .error _ => []) = [2, 12] := by decide
+example : (match reshapeDims [2, 0] [0, 0] true with | .ok s => s | .error _ => [9]) = [0, 0] := by decide
+
+/-- L20. `Squeeze(Unsqueeze(x, axes), axes) = x` on shapes (both operators leave the element sequence
+untouched by definition): removing the inserted positions gives the original shape back, the result of
+Unsqueeze has rank `r + |axes|`, and every inserted extent is 1 (so the Squeeze is legal). `hax` states
+that the axes are distinct positions of the result. -/
+theorem c15_squeeze_unsqueeze (s axes : List Nat)
+    (hax : ((List.range (s.length + axes.length)).filter (fun j => axes.contains j)).length = axes.length) :
+    removeAxes (insertOnes s 0 axes (s.length + axes.length)) axes = s ∧
+    (insertOnes s 0 axes (s.length + axes.length)).length = s.length + axes.length ∧
+    (∀ k, k < s.length + axes.length → axes.contains k = true →
+      getN (insertOnes s 0 axes (s.length + axes.length)) k = 1) :=
+  squeeze_unsqueeze_shape s axes hax
+
+example : ((List.range ([2, 3].length + [3, 0].length)).filter (fun j => [3, 0].contains j)).length = [3, 0].length := by
+  decide
+example : insertOnes [2, 3] 0 [3, 0] 4 = [1, 2, 3, 1] ∧ removeAxes [1, 2, 3, 1] [3, 0] = [2, 3] := by decide
 
 end RtenVerif.OnnxRef
